@@ -127,6 +127,7 @@ class Interp:
         self.oracle = oracle or (lambda *a: None)
         self.heap = {}
         self.frames = {}
+        self.mut_scalar_locs = set()
         self.nframe = 0
         self.events = []
         self.steps = 0
@@ -451,7 +452,12 @@ class Interp:
             return self.operand(fid, r[1])
         if k in ("ref", "rawptr"):
             pl = r[2] if k == "ref" else r[1]
-            return ("ref", self.loc_of(fid, pl))
+            loc = self.loc_of(fid, pl)
+            if k == "ref" and r[1] == "mut" and not pl["p"] and SCALAR_BUF_TY.match(body.locals[pl["l"]]["ty"]):
+                # a `&mut` borrow of a whole local holding plain bytes / an integer: an unmodelled foreign method handed this
+                # reference may rewrite the local (reverse, fill, copy_from_slice, rotate, swap ...), see the uninterpreted case
+                self.mut_scalar_locs.add(loc)
+            return ("ref", loc)
         if k == "cfd":
             return self.read_loc(self.loc_of(fid, r[1]))
         if k == "cast":
@@ -861,6 +867,7 @@ class Interp:
                     self.heap, self.events = saved_heap, saved_events
                     break
             self.events.append(("call", name, [d[1] for d in dargs], site))
+            self.havoc_mut_args(name, args, [d[1] for d in dargs])
             return Tok("%s(%s)" % (name, ",".join(d[1] for d in dargs)))
         # --- crate-local functions: inline
         for p in (res_path, path):
@@ -886,9 +893,18 @@ class Interp:
         if name in ("panic", "panic_fmt", "unreachable", "begin_panic", "panic_display", "unwrap_failed", "expect_failed"):
             return DIVERGE
         names = [self.tokname(a) for a in args]
+        # an unmodelled foreign method handed a `&mut` to a local byte array / integer may rewrite it: what the local holds
+        # afterwards is an uninterpreted function of the call (leaving it as it was would be a silent pass, self-test K1c)
+        self.havoc_mut_args(name, args, names)
         if all("?" not in n for n in names):
             return Tok("%s(%s)" % (name, ",".join(names)))
         return TOP
+
+    def havoc_mut_args(self, name, args, names):
+        if name not in READ_ONLY_ON_COLLECTIONS and not name.startswith(READ_ONLY_PREFIXES):
+            for a in args:
+                if a is not None and a[0] == "ref" and a[1] in self.mut_scalar_locs:
+                    self.write_loc(a[1], Tok("%s!(%s)" % (name, ",".join(names))))
 
     def drive(self, fut, depth=1):
         """run a crate-local future (a coroutine value) to completion in place - for oracles that model an executor (a spawned
@@ -1093,6 +1109,7 @@ class Interp:
 
 
 NOTHANDLED = object()
+SCALAR_BUF_TY = re.compile(r"^(\[u8; [^\]]+\]|u8|u16|u32|u64|u128|usize|i8|i16|i32|i64|i128|isize)$")
 DIVERGE = ("diverge",)
 
 
